@@ -53,6 +53,12 @@ func (b *box) Discard(n int) (int, error) {
 // Read the bytes from underlying reader. Is limited by the
 // constrains of the box
 func (b *box) Read(p []byte) (n int, err error) {
+	// a child that overstates its size must not read past an enclosing box
+	for o := b.outer; o != nil; o = o.outer {
+		if o.remain < len(p) {
+			return 0, ErrRemainLengthInsufficient
+		}
+	}
 	if b.remain >= len(p) {
 		//fmt.Println(b.remain)
 		n, err = b.reader.br.Read(p)
